@@ -24,7 +24,7 @@ def gen(rng, tier):
         p = progs.gen_program(rng, o)
         c = {'clauses': p['clauses'], 'queries': p['queries']}
         if any('call:findall' in progs.constructs(b) for _, _, b in p['clauses']):
-            c['three_views'] = True       # see semcheck.compare: Sld.solve is no reference for the identity of collected variables
+            c['sld_aux_only'] = True      # see semcheck.compare: Sld.solve is no reference for the identity of collected variables
         cases.append(c)
     # builtins whose other arguments (bag, extra arguments, terms of = and \=) share variables with a goal whose answers
     # depend on the binding state of those variables (progs.gen_meta_program)
